@@ -12,6 +12,7 @@ import (
 	"math"
 	"os"
 	"reflect"
+	"testing"
 	"unsafe"
 )
 
@@ -258,3 +259,7 @@ func ByteBuf() []byte { return make([]byte, 0, 512) }
 // so far on the current path; natively the allocation budget is measured with
 // testing.AllocsPerRun by the replay, so it is constant here.
 func AllocCount() int { return 0 }
+
+// Allocs is the number of heap allocations one call of f performs, in steady
+// state (natively measured with testing.AllocsPerRun).
+func Allocs(f func()) int { return int(testing.AllocsPerRun(20, f)) }
